@@ -333,6 +333,7 @@ def run(ctx):
         "mirrored block (system symmetric by construction), constraint block zeroed last, measurement error on the data diagonal only; (R05.3) both sides use the same model's covariance family on distances between "
         "isometrized positions, drift rows use the same functions; (R05.4) coordinate frames of all sinks; (R05.5) chunks are disjoint contiguous slices, each chunk's results come from its own right-hand sides; "
         "kernel index structure field = c^T M v, var = v^T M v; (R05.7) the five variants forward their parameters unchanged. NOT decided: numerical equality with a direct solve, linearity/unbiasedness as values."
+        ' (R05.11-R05.14) kernel sums, bounds, own input data, allocation and exits of the kriging kernels; the data vector and the kriged mean go through the exact inverse / forward output pipeline; R05.6 also on exits by `raise` (3 known findings).'
     )
 
 
